@@ -157,10 +157,12 @@ pub fn asm(rest: &str) -> String {
         Some(i) => {
             // both entry points of `Assemble`: `assemble()` and `assemble_into(&mut Vec)` (appending after existing content)
             let a = i.assemble();
-            let mut b = vec![0xdead_beef_u32];
-            i.assemble_into(&mut b);
-            if b[0] != 0xdead_beef || b[1..] != a[..] {
-                return format!("entry-points-differ assemble={:?} assemble_into={:?}", a, &b[1..]);
+            for prefix in [1usize, 65535, 65536, 131071] {
+                let mut b = vec![0xdead_beef_u32; prefix];
+                i.assemble_into(&mut b);
+                if b[..prefix].iter().any(|w| *w != 0xdead_beef) || b[prefix..] != a[..] {
+                    return format!("entry-points-differ prefix={} assemble={:?} assemble_into={:?}", prefix, a, &b[prefix.min(b.len())..]);
+                }
             }
             let ws: Vec<String> = a.iter().map(|w| w.to_string()).collect();
             format!("ok {}", ws.join(","))
